@@ -306,6 +306,30 @@ def r3(F, R):
                         fn_name = callee_path(t2)
             seq[fn_name] = seq.get(fn_name, 0) + 1
             R.check(ok, f"first-non-empty-group/{fn_name or top.short[-30:]}#{seq[fn_name]}", s, "acc.or_else(|| (!s.is_empty()).then_some(s))", why or f"fold cases seen: {sorted(seen)}")
+    # every window of groups taken off the shared captures iterator (`iter.by_ref().take(n)`) is consumed COMPLETELY (fold / last /
+    # for_each / collect ..): a short-circuiting consumer (find / any / position / next ..) leaves the parameter's remaining groups in
+    # the iterator, and the next argument is parsed from a left-over group instead of its own
+    wseq = {}
+    for b in sorted(F.bodies.values(), key=lambda x: x.span or ""):
+        if b.crate != "cucumber_verif_zoo":
+            continue
+        for s, t in b.calls(lambda t: callee_is(t, r"Iterator::(find|find_map|any|all|position|next|nth|try_fold|try_for_each|fold|last|count|for_each|collect|max|min|sum)$")):
+            if not t["args"]:
+                continue
+            sl = A.slice_back(b, [t["args"][0]])
+            if not (any(callee_is(c, r"Iterator::take$") for _, c in sl.calls) and any(callee_is(c, r"Iterator::by_ref$") for _, c in sl.calls)):
+                continue
+            top = F.root_fn(b)
+            fn_name = None
+            for nb in F.nested(top):
+                for _, t2 in nb.calls():
+                    if callee_path(t2) in ZOO:
+                        fn_name = callee_path(t2)
+            wseq[fn_name] = wseq.get(fn_name, 0) + 1
+            short = callee_is(t, r"Iterator::(find|find_map|any|all|position|next|nth|try_fold|try_for_each)$")
+            R.check(not short, f"group-window-consumed/{fn_name or top.short[-30:]}#{wseq[fn_name]}", s, "the parameter's group window is consumed completely",
+                    f"the groups of one parameter (`take(n)` of the shared captures iterator) are consumed by the short-circuiting `{callee_path(t).rsplit('::', 1)[-1]}`: "
+                    "groups it does not visit stay in the iterator and are parsed as the NEXT argument")
     R.floor(8)
 
 
@@ -390,4 +414,13 @@ def r6(F, R):
     roles.check_field_faithful_clone(F, R, "step::Collection", "collection")
 
 
-RULES = [("R1", r1, ["default", "all"]), ("R2", r2, ["zoo:default"]), ("R3", r3, ["zoo:default"]), ("R4", r4, ["zoo:default"]), ("R5", r5, ["zoo:default"]), ("R6", r6, ["default", "all"])]
+def r7(F, R):
+    """"`regex =` matches as written ... receives the capture groups": the values handed to the generated parsing code are the
+    groups of the match in the step text, whole match first (= C17.R4: offsets index the matched string, not a substring)."""
+    if "cucumber_verif_zoo" in F.crates and "cucumber" not in F.crates:
+        return
+    from . import c17
+    c17.r4(F, R)
+
+
+RULES = [("R1", r1, ["default", "all"]), ("R2", r2, ["zoo:default"]), ("R3", r3, ["zoo:default"]), ("R4", r4, ["zoo:default"]), ("R5", r5, ["zoo:default"]), ("R6", r6, ["default", "all"]), ("R7", r7, ["default", "all"])]
